@@ -349,18 +349,33 @@ def check(ctx: Ctx) -> None:
             ob.site(flr, c, "delivered value = loads_internal(received payload)", ok=ok)
             if not ok:
                 ob.violation(flr, c, "the delivered object is not the decoded payload of this frame")
-        # drop only when there is neither queue nor callback
-        for n in repo.own_nodes(flr):
-            if isinstance(n, ast.Pass):
-                cf = cfg
-                for nd in cf.node_containing(n):
-                    from ..util import Facts
-                    f = Facts(repo, flr, {})
-                    for (t, lab) in cf.guards(nd.id):
-                        if t.kind == "test":
-                            f.assume(t.ast, lab == "true")
-                    if f.get("queue is None") is not True:
-                        ob.violation(flr, n, "data is dropped although the channel has a queue")
+        # drop only when there is neither queue nor callback: a normally ending path without any delivery has established
+        # that the channel is gone or has no queue (decided on the whole path condition)
+        from ..terms import NONE as _Nf, evaluator as _evf, implies as _impf
+        cbn = {id(c) for c in cb_calls}
+        evf = _evf(repo, flr)
+        ndrop = 0
+        for (pth, st_) in evf.run(limit=20000):
+            if pth[-1][0] != evf.cfg.exit.id:
+                continue
+            if any(e.kind == "call" and (e.attr == "put" or id(e.node) in cbn) for e in st_.events):
+                continue
+            ndrop += 1
+            chans = [e.result for e in st_.events if e.kind == "call" and e.attr == "get" and e.recv is not None and e.recv[0] == "sym" and e.recv[1].endswith("._channels")]
+            ok = False
+            for ch in chans:
+                goal = ("or", ("cmp", "is", ch, _Nf), ("cmp", "is", ("attr", ch, "_items"), _Nf))
+                try:
+                    if _impf(st_.cond, goal) is True:
+                        ok = True
+                except Exception:
+                    pass
+            if not ok:
+                last = evf.cfg.nodes[pth[-2][0]] if len(pth) >= 2 else None
+                ob.violation(flr, last.ast if last is not None and last.ast is not None else flr.node, "data is dropped although the channel has a queue",
+                             path=evf.cfg.describe_path(pth))
+                break
+        ob.site(flr, flr.node, "a frame is dropped only when the channel is gone or has no queue", drop_paths=ndrop)
 
     check_handover_lock(ctx, locks, "C02.g")
     check_lock_order(ctx, locks, "C02.h")
@@ -388,6 +403,12 @@ def check(ctx: Ctx) -> None:
                     contained = _scope(repo, flr, e.node)
                     chan = e.args[1] if len(e.args) > 1 else e.kwargs.get("channelfactory", e.kwargs.get("channel"))
                     alive = chan is not None and _tvm(("cmp", "is", chan, _Nm), dict(st_.cond[:e.ncond])) is False
+                    if chan is not None and not alive:
+                        from ..terms import implies as _impm
+                        try:
+                            alive = _impm(st_.cond[:e.ncond], ("not", ("cmp", "is", chan, _Nm))) is True
+                        except Exception:
+                            alive = False
                     if id(e.node) not in seen_m:
                         nd += 1
                         seen_m.add(id(e.node))
